@@ -111,6 +111,37 @@ def check_combo(args):
     return lookups, nontrivial, bad
 
 
+REGS = ("_picked_by_setup_nodes", "_dropped_setup_nodes", "_picked_by_cleanup_nodes", "_dropped_cleanup_nodes")
+_ORIG = {}
+
+
+def watched_bridge(self, test_node):
+    """TestNode.bridge_with_node with a before/after reading of the visit totals both tests can report."""
+    from vt.e1 import engine
+
+    before = {(n.params["name"], a): getattr(n, a).get_counters() for n in (self, test_node) for a in REGS}
+    r = _ORIG["bridge"](self, test_node)
+    env = engine.ENV
+    if env is not None:
+        for n in (self, test_node):
+            for a in REGS:
+                after = getattr(n, a).get_counters()
+                if after < before[(n.params["name"], a)]:
+                    env.ev("counter-loss", node=n.params["name"], register=a, before=before[(n.params["name"], a)], after=after)
+    return r
+
+
+def c16dyn(scn_, x):
+    out = []
+    if x.exc:
+        out.append({"what": f"lazy traversal failed: {x.exc}", "signature": {"part": "lazy-counters", "what": "exception"}})
+    for e in x.trace:
+        if e["k"] == "counter-loss":
+            out.append({"what": f"linking equivalent tests lost visits: {e['register']} of {e['node'][:90]} reported {e['before']} visits before and {e['after']} after",
+                        "signature": {"part": "lazy-counters", "what": "visits lost on linking", "register": e["register"]}})
+    return out
+
+
 def run(tier: str, seed: int) -> int:
     common.bootstrap("mini")
     rep = common.Report("C16", tier, seed, "bounded exhaustive input/sequence enumeration on the real PrefixTree and EdgeRegister vs naive scan / counter model")
@@ -273,6 +304,35 @@ def run(tier: str, seed: int) -> int:
     for k in seen:
         rep.distinct.add(("reg", k))
     rep.sample({"register_ops": [list(o) for o in (sample_hist or ())]})
+    # ---- part 3: counters while the graph grows on demand ------------------------------------------------------------------------
+    # equivalent tests are linked (and start sharing their four registers) whenever another worker unrolls the same test during a
+    # traversal; linking must never lose a visit that either of the two tests could report before
+    import time as _time
+    from avocado_i2n.cartgraph import node as nodemod
+
+    orig_bridge = nodemod.TestNode.bridge_with_node
+    _ORIG["bridge"] = orig_bridge
+    nodemod.TestNode.bridge_with_node = watched_bridge
+    try:
+        dyn_rows = []
+        for scn_, kk in ((S.G2(D=(1.0, 3.0)), 1), (S.G1(D=(1.0, 3.0)), 1), (S.T2(lazy=True, D=(1.0, 3.0)), 1),
+                         (engine.Scenario("G3finale:net1+net2/lazy", "leaves..tutorial_finale", "net1 net2", lazy=True, D=(1.0, 3.0)), 0 if q else 1)):
+            res = engine.explore(scn_, c16dyn, kk, _time.time() + (150 if q else 900), seed)
+            rep.transitions += res.transitions
+            rep.evaluations += res.executions
+            rep.states += len(res.histories)
+            seen_sig = set()
+            for v in res.violations:
+                kx = json.dumps(v["signature"], sort_keys=True)
+                if kx not in seen_sig:
+                    seen_sig.add(kx)
+                    rep.violation(f"[{scn_.name}] {v['what']}", v["replay"], dict(v["signature"], scenario=scn_.name.split(":")[0]))
+            dyn_rows.append({"scenario": scn_.name, "k": kk, "executions": res.executions, "complete": res.complete})
+            if not res.complete:
+                rep.exhaustive = False
+        rep.sections["lazy_counters"] = dyn_rows
+    finally:
+        nodemod.TestNode.bridge_with_node = orig_bridge
     rep.traces_validated = rep.transitions
     rep.bounds = {"names_per_set": 3 if q else 4, "inner_variants": inner, "query_length": 3, "register_depth": depth}
     rep.assumptions = ["names are parser-shaped: set variant first, no variant repeated within a name (as the statement restricts)",
